@@ -10,7 +10,7 @@ for f in ("patch.diff", "demo.diff"):
     shutil.copy(os.path.join(src, f), dst)
 meta = json.load(open(os.path.join(src, "meta.json")))
 def failed(log):
-    return sorted(set(m.group(1).split("::")[-1] for m in re.finditer(r"^test (\S+) \.\.\. FAILED", open(log).read(), re.M)))
+    return sorted(set(m.group(1).split("::")[-1] for m in re.finditer(r"^test (\S+)(?: - should panic)? \.\.\. FAILED", open(log).read(), re.M)))
 conf = {}
 if os.path.exists(src + "/run_orig.log"):
     conf = {"worktree": "/tmp/mut-%s (scratch git worktree of /repo, removed afterwards)" % pid,
